@@ -76,10 +76,10 @@ MUTATIONS = [
     ("has_any_bit", "C14", "Has is true if any bit of the flag is set (golden edited accordingly)",
      [(TMPL, "\treturn {{$this}}&flag == flag", "\treturn {{$this}}&flag != 0 || flag == 0"),
       (GOLD_BIT, "\treturn f&flag == flag", "\treturn f&flag != 0 || flag == 0")]),
-    ("max_last_only", "C14", "_max is the largest constant instead of the OR of all",
-     [(STR, "g.data.Max = strings.Join(nameList, \" | \")", "g.data.Max = strings.Join(nameList[len(nameList)-1:], \" | \")"),
-      (GOLD_BIT, "const _formatStyle_max = None | Bold | Italic | Underline | Strikethrough", "const _formatStyle_max = Strikethrough"),
-      (GOLD_JSON, "const _color_max = ColorRed | ColorGreen | ColorBlue", "const _color_max = ColorBlue")]),
+    ("max_upper_half", "C14", "_max is the OR of the upper half of the constants only (goldens edited accordingly)",
+     [(STR, "g.data.Max = strings.Join(nameList, \" | \")", "g.data.Max = strings.Join(nameList[len(nameList)/2:], \" | \")"),
+      (GOLD_BIT, "const _formatStyle_max = None | Bold | Italic | Underline | Strikethrough", "const _formatStyle_max = Italic | Underline | Strikethrough"),
+      (GOLD_JSON, "const _color_max = ColorRed | ColorGreen | ColorBlue", "const _color_max = ColorGreen | ColorBlue")]),
     ("bit_sort_dropped", "C14", "the sort comparator always says 'not less' (flags in declaration order)",
      [(STR, "\t\treturn values[i].value < values[j].value\n\t})", "\t\treturn false && values[i].value < values[j].value\n\t})"),
       (STR, "\t\t\treturn int64(values[i].value) < int64(values[j].value)", "\t\t\treturn false && int64(values[i].value) < int64(values[j].value)")]),
